@@ -1664,6 +1664,14 @@ class PresetEnc(csmt.Enc):
     not strengthen the system; it lets the encoder treat products of small operands exactly."""
     preset = None
 
+    def iszero_lemmas(self, polys):
+        """csmt.Enc's syntactic is-zero lemma (added to csmt.Enc.encode after this engine was built) is not
+        used with the presets: `discover_hints` already replaces the same gadget rows by the fact
+        `v = ite(x = c, 1, 0)` it proved from them, and the lemma's extra residue definitions made the
+        Base64 queries 300x slower (decode_base64 padded n=8: 0.2 s -> 60 s; every base64url obligation
+        timed out at 120 s). Leaving out an implied fact cannot make a query unsat."""
+        return
+
     def constraint(self, poly, monomial_mode=False):
         """a degree-2 row whose every product contains one and the same Boolean atom b (b < 2 is a static
         fact) is the disjunction of two LINEAR rows, b = 0 and b = 1: exact, and free of product terms."""
